@@ -23,12 +23,19 @@ func init() {
 }
 
 // Names that are hashed whether or not the package is selected.
-var reviewedUnguarded = map[string]string{
-	"(*listedPackage).obfuscatedSourceDir: hashWithPackage(param:p, param p.ImportPath)":                  "name of the directory under garble's temp dir; never reaches the binary (-trimpath)",
-	"(*transformer).transformAsm: hashWithPackage(*param:tf.curPkg, call path/filepath.Base)":            "name of the temporary copy of an assembly file; hides the original file name even for non-selected packages",
-	"(*transformer).transformLink$1: hashWithPackage(var lpkg, call strings.Cut#0[:])":                    "the duplicated -X flag for the obfuscated spelling; the linker ignores names that do not exist",
-	"(*reflectInspector).obfuscatedObjectName: hashWithPackage(var lpkg, call (go/types.Object).Name)":    "key under which the reflect inspector remembers a name; only consulted for names that were obfuscated",
-	"(*reflectInspector).obfuscatedObjectName: hashWithStruct(param parent, param obj#0)":                      "key under which the reflect inspector remembers a field name; field names are package-independent",
+// reviewedUnguarded is keyed by function, callee and the provenance of the package
+// operand — not by how the hashed name is computed, so that moving the parsing of a
+// name into a helper does not turn a reviewed site into a new one. n is the number of
+// such sites reviewed in that function; one more is a new site and is reported.
+var reviewedUnguarded = map[string]struct {
+	n      int
+	reason string
+}{
+	"(*listedPackage).obfuscatedSourceDir: hashWithPackage(param:p)":         {1, "name of the directory under garble's temp dir; never reaches the binary (-trimpath)"},
+	"(*transformer).transformAsm: hashWithPackage(*param:tf.curPkg)":         {2, "name of the temporary copy of an assembly file (both passes); hides the original file name even for non-selected packages"},
+	"(*transformer).transformLink$1: hashWithPackage(var lpkg)":              {1, "the duplicated -X flag for the obfuscated spelling; the linker ignores names that do not exist"},
+	"(*reflectInspector).obfuscatedObjectName: hashWithPackage(var lpkg)":    {1, "key under which the reflect inspector remembers a name; only consulted for names that were obfuscated"},
+	"(*reflectInspector).obfuscatedObjectName: hashWithStruct(param parent)": {1, "key under which the reflect inspector remembers a field name; field names are package-independent"},
 }
 
 func checkC14(c *Ctx) {
@@ -206,8 +213,10 @@ func checkC14(c *Ctx) {
 
 	// R14.4
 	seen := map[string]int{}
+	unguarded := map[string]int{}
 	check := func(cs CallSite, callee string, pkg ssa.Value, any bool) {
 		desc := ""
+		pkgDesc := ""
 		for i, a := range cs.Args() {
 			if i > 0 {
 				desc += ", "
@@ -219,6 +228,9 @@ func checkC14(c *Ctx) {
 				}
 			} else {
 				desc += valueDesc(a)
+			}
+			if i == 0 {
+				pkgDesc = desc
 			}
 		}
 		key := fmt.Sprintf("%s: %s(%s)", w.FuncName(cs.Fn), callee, desc)
@@ -234,15 +246,16 @@ func checkC14(c *Ctx) {
 		} else {
 			ok, how = guardedByToObfuscate(w, cs.Instr, pkg, 0)
 		}
-		base := key
-		if i := strings.LastIndex(base, " #"); i > 0 {
-			base = base[:i]
+		rkey := fmt.Sprintf("%s: %s(%s)", w.FuncName(cs.Fn), callee, pkgDesc)
+		rev, reviewed := reviewedUnguarded[rkey]
+		if !ok && reviewed {
+			unguarded[rkey]++
 		}
 		switch {
 		case ok:
 			c.OK("R14.4", key, pos, how)
-		case reviewedUnguarded[base] != "":
-			c.OK("R14.4", key, pos, "reviewed: "+reviewedUnguarded[base])
+		case reviewed && unguarded[rkey] <= rev.n:
+			c.OK("R14.4", key, pos, "reviewed: "+rev.reason)
 		default:
 			c.Bad("R14.4", key, pos, "an obfuscated name is derived for a package without first testing that package's ToObfuscate: with a GOGARBLE that does not select it, garble would rename, or look for a renamed, identifier of a package that keeps its names")
 		}
